@@ -151,3 +151,16 @@ Print Assumptions C20_later_stacked_also_cleared.
 Theorem C20_later_once_each_iff : forall k, ncov k = true -> (umount_once_each k = [] <-> has_dup k = false).
 Proof. exact once_each_iff. Qed.
 Print Assumptions C20_later_once_each_iff.
+
+(* ---- the regenerated constants this property's predicate / model rest on, against literals.
+   Gen/Consts.v is rewritten from the source of /repo on every run, so without this theorem an
+   edit of one of these constants would move model, predicate and code together and nothing
+   would be reported.  Used by: the predicate C20.spec / wf / kf read layers from disk through Model/Layers.v (layerconfig_path).
+   "frozen" = no manual text gives the value; it is the value of the reviewed tree. *)
+From LC Require Import Gen.Consts Proofs.C20PinsP.
+Local Open Scope string_scope.
+Theorem C20_constants_pinned :
+  (* doc/layercake_directories.adoc, manual page LAYER DIRECTORY: "layerconfig" *)
+  D_LayerconfigFile = bs "layerconfig".
+Proof. exact c20_constants_pinned. Qed.
+Print Assumptions C20_constants_pinned.
